@@ -157,3 +157,18 @@ IMAGE_NAMES = [(pol, scan) for scan in (None, "F1", "F2", "F3", "F4", "F5") for 
 
 def group_name(pol, scan):
     return pol if not scan else f"{pol}_scan{scan[1]}"
+
+
+def mem_mapper(files):
+    """a real fsspec mapper (memory filesystem; what ``io.open`` hands to the library's per-file open functions) holding exactly
+    the given files; one directory per process, rewritten on every call (the mapper is meant to be used at once)"""
+    import fsspec
+
+    root = f"/seam_{os.getpid()}"
+    fs = fsspec.filesystem("memory")
+    if fs.exists(root):
+        fs.rm(root, recursive=True)
+    for k, v in files.items():
+        fs.pipe(f"{root}/{k}", v)
+    return fsspec.get_mapper(f"memory://{root}")
+
